@@ -66,6 +66,23 @@ def tpl_fields(rng):
     return [ELEMS[i] for i in sorted(rng.sample(range(len(ELEMS)), k))]
 
 
+def published_lines(log):
+    """the DISTINCT published messages the verbose log shows.  The NetFlow v9 / v5 workers print their encode buffer
+    after every datagram that yields a message — also one without data, for which the buffer still holds the previous
+    datagram's JSON — so a repeated line is not a second publication (every datagram of a cycle carries its own sequence
+    number, so two publications never print the same line)."""
+    seen, out = set(), []
+    for line in log.split("\n"):
+        j = line.find('{"AgentID"')
+        if j < 0 or '"DataSets":[[' not in line:
+            continue
+        t = line[j:]
+        if t not in seen:
+            seen.add(t)
+            out.append(t)
+    return out
+
+
 def ipfix_msg(sets, seq=1):
     body = b"".join(sets)
     return struct.pack(">HHIII", 10, 16 + len(body), int(time.time()), seq, 7) + body
@@ -410,7 +427,7 @@ def cycle(n, seed, binary, pattern=None):
         t_probe = time.time()
         while time.time() - t_probe < 5:
             lg = vf.log()
-            if lg.count('"DataSets":[[') + lg.count("unknown ipfix template") + lg.count("unknown netflow template") >= len(probes):
+            if len(published_lines(lg)) + lg.count("unknown ipfix template") + lg.count("unknown netflow template") >= len(probes):
                 break
             time.sleep(0.05)
         time.sleep(0.1)
@@ -418,7 +435,7 @@ def cycle(n, seed, binary, pattern=None):
         rc2, lat2 = vf.stop(signal.SIGTERM)
         log2 = vf.log()
         unknown = log2.count("unknown ipfix template") + log2.count("unknown netflow template")
-        decoded = log2.count('"DataSets":[[')
+        decoded = len(published_lines(log2))
         sample.update({"probes_after_restart": len(probes), "decoded_after_restart": decoded})
         if rc2 != 0 or any(w in log2 for w in ("panic:", "fatal error")):
             return "exit2=%s" % rc2, "fail:exit second stop: status %s: %s" % (rc2, log2[-300:].replace("\n", " | ")), sample
@@ -796,7 +813,7 @@ def same_pid_cycle(n, seed, binary, params=None):
         t_probe = time.time()
         while time.time() - t_probe < 5:
             lg = vf2.log()
-            if lg.count('"DataSets":[[') + lg.count("unknown ipfix template") + lg.count("unknown netflow template") >= len(tpls):
+            if len(published_lines(lg)) + lg.count("unknown ipfix template") + lg.count("unknown netflow template") >= len(tpls):
                 break
             time.sleep(0.05)
         stt = vf2.stats()
@@ -804,7 +821,7 @@ def same_pid_cycle(n, seed, binary, params=None):
         s.close()
         log2 = vf2.log()
         unknown = log2.count("unknown ipfix template") + log2.count("unknown netflow template")
-        decoded = log2.count('"DataSets":[[')
+        decoded = len(published_lines(log2))
         sample.update({"exit_run2": rc2, "decoded_after_restart": decoded})
         if rc2 != 0 or any(w in log2 for w in ("panic:", "fatal error")):
             return "exit2=%s" % rc2, "fail:exit second stop: status %s: %s" % (rc2, log2[-300:].replace("\n", " | ")), sample
@@ -1249,7 +1266,7 @@ def startup_cycle(n, seed, binary, params=None):
             i = max(log.find("DATA RACE"), log.find("fatal error"), log.find("panic:"))
             return "raced", "fail:startup race / crash report after a start under traffic (ipfix.elements %s): %s" % (
                 "installed" if installed else "absent", log[max(0, i - 20):i + 900].replace("\n", " | ")), sample
-        sample["decoded"] = log.count('"DataSets":[[')
+        sample["decoded"] = len(published_lines(log))
         # the extension element of the installed file: every decoder that is switched on publishes it with the file's type
         want = '{"I":%d,"V":%s}' % (ext_id, tjson)
         seen = {}
@@ -1372,10 +1389,7 @@ def redefinition_cycle(n, seed, binary, workers):
         seqkey = '"SequenceNo":' if proto == "ipfix" else '"SeqNum":'
         good = bad = 0
         first_bad = None
-        for line in log.split("\n"):
-            j = line.find('{"AgentID"')
-            if j < 0 or '"DataSets":[[' not in line:
-                continue
+        for line in published_lines(log):
             m = re.search(seqkey + r"(\d+)", line)
             if not m:
                 continue
